@@ -74,3 +74,97 @@ class Seq:
             mark = " <== differs" if i in (k, f) else ""
             print("  %-40s real=%s   model|spec=%s%s" % (op, real[i] if i < len(real) else "?", ms[i].replace("\t", " | ") if i < len(ms) else "?", mark))
         return {"k": k, "f": f}
+
+# ------------------------------------------------------------------ H2: schedule harness
+
+_SCRATCH_CACHE = {}
+
+def prepare_sched_binary(ctx):
+    """copy REPO's working tree to a scratch dir outside /repo and /verif, substitute the import paths of sync/atomic
+    (faststats/atomic.go) and sync (every non-test file declaring a Mutex/RWMutex), drop in vsched + vschedrun, build.
+    The files are found by scanning imports at check time, not from a fixed list. Returns the binary path (inside
+    ctx.workdir); the scratch copy is removed immediately after the build."""
+    if ctx.workdir in _SCRATCH_CACHE:
+        return _SCRATCH_CACHE[ctx.workdir]
+    import tempfile, re
+    scratch = tempfile.mkdtemp(prefix="verif-sched-")
+    try:
+        rc, out = sh(["rsync", "-a", "--exclude", ".git", REPO.rstrip("/") + "/", scratch + "/"])
+        if rc != 0:
+            raise BuildError("rsync failed: " + out)
+        instrumented = []
+        for dp, dns, fns in os.walk(scratch):
+            dns[:] = [d for d in dns if not d.startswith(".") and d not in ("example", "vsched", "benchmarking")]
+            for fn in fns:
+                if not fn.endswith(".go") or fn.endswith("_test.go"):
+                    continue
+                p = os.path.join(dp, fn)
+                src = open(p).read()
+                new = src
+                if re.search(r'^\s*"sync/atomic"\s*$', src, re.M):
+                    new = re.sub(r'^(\s*)"sync/atomic"\s*$', r'\1"github.com/cep21/circuit/v4/vsched/vatomic"', new, flags=re.M)
+                    new = re.sub(r'\batomic\.', 'vatomic.', new)
+                if re.search(r'^\s*"sync"\s*$', src, re.M):
+                    new = re.sub(r'^(\s*)"sync"\s*$', r'\1sync "github.com/cep21/circuit/v4/vsched/vsync"', new, flags=re.M)
+                if new != src:
+                    open(p, "w").write(new)
+                    instrumented.append(os.path.relpath(p, scratch))
+        shutil.copytree(os.path.join(VERIF, "vsched"), os.path.join(scratch, "vsched"))
+        binp = os.path.join(ctx.workdir, "vschedrun")
+        rc, out = sh(["go", "build", "-o", binp, "./vsched/vschedrun"], cwd=scratch, env=GOENV, timeout=1200)
+        if rc != 0:
+            raise BuildError("schedule harness does not build against the instrumented tree:\n" + out[-3000:])
+    finally:
+        shutil.rmtree(scratch, ignore_errors=True)
+    _SCRATCH_CACHE[ctx.workdir] = (binp, instrumented)
+    return binp, instrumented
+
+class Sched:
+    """K2/monitors: real code under the cooperative scheduler; a failing schedule is the replay"""
+    kind = "K2"
+    def __init__(self, scenario, quick, thorough, exhaustive_limit=0, label=None):
+        self.scenario, self.quick, self.thorough, self.exh = scenario, quick, thorough, exhaustive_limit
+        self.name = label or ("sched-" + scenario)
+    def _run(self, binp, args):
+        rc, out = sh([binp, "-scenario", self.scenario] + args, env=GOENV, timeout=7200)
+        lines = []
+        for l in out.splitlines():
+            l = l.strip()
+            if l.startswith("{"):
+                try: lines.append(json.loads(l))
+                except ValueError: pass
+        if rc != 0 and not lines:
+            raise RuntimeError("vschedrun failed: " + out[-1500:])
+        return lines
+    def run(self, ctx):
+        binp, instrumented = prepare_sched_binary(ctx)
+        n = (self.quick if ctx.tier == "quick" else self.thorough) * ctx.scale
+        out = {"name": self.name, "kind": self.kind, "scenario": self.scenario, "evaluations": 0, "distinct_nontrivial": 0, "traces_validated": 0,
+               "samples": [], "stats": {}, "k_bad": [], "f_bad": [], "instrumented_files": instrumented}
+        batches = [["-seed", str(ctx.seed), "-runs", str(n)]]
+        if self.exh and (ctx.tier == "thorough" or self.exh <= 3000):
+            batches.append(["-exhaustive", "-seed", str(ctx.seed), "-limit", str(self.exh if ctx.tier == "quick" else self.exh * 20)])
+        for args in batches:
+            for rec in self._run(binp, args):
+                if rec.get("summary"):
+                    out["evaluations"] += rec["runs"]; out["distinct_nontrivial"] += rec["distinct_schedules"]
+                    out["stats"].setdefault("batches", []).append(rec)
+                    out["traces_validated"] += rec["runs"] - rec["failing"]
+                elif rec.get("sample"):
+                    if len(out["samples"]) < 2:
+                        out["samples"].append({"config": rec["config"], "schedule": rec["choices"][:60], "trace": (rec.get("trace") or [])[:40]})
+                elif rec.get("problems"):
+                    out["f_bad"].append({"component": self.name, "kind": "spec-violation", "scenario": self.scenario, "config": rec["config"],
+                                         "schedule": rec["choices"], "problems": rec["problems"], "trace": (rec.get("trace") or [])[:400], "seed": ctx.seed,
+                                         "signature": None})
+        return out
+    def replay(self, item, ctx, quiet=False):
+        binp, _ = prepare_sched_binary(ctx)
+        recs = self._run(binp, ["-replay", item["config"] + ";" + ",".join(str(c) for c in item["schedule"])])
+        probs = recs[0].get("problems") if recs else ["no output"]
+        import sys
+        print("config", item["config"], "schedule", item["schedule"], file=sys.stderr if quiet else sys.stdout)
+        for t in (recs[0].get("trace") or [])[:200] if recs else []:
+            print("  ", t, file=sys.stderr if quiet else sys.stdout)
+        print("problems:", probs, file=sys.stderr if quiet else sys.stdout)
+        return {"f": 0 if probs else None}
